@@ -277,6 +277,10 @@ class Outcome:
         self.known_hit = {}    # signature regex -> count
         self.problems = []     # machinery problems
         self.findings = known_findings(pid)
+        # replays of earlier runs of this property / tier / seed are stale
+        import glob
+        for d in glob.glob(os.path.join(REPLAYS, "%s-%s-seed%d-*" % (pid, tier, SEED))):
+            shutil.rmtree(d, ignore_errors=True)
 
     def add_tlc(self, r, what=""):
         self.states += r.distinct
